@@ -6,4 +6,5 @@ cd /repo && git status --short | grep -v '^??' && { echo "/repo not clean"; exit
 git -C /repo apply $D/patch.diff || exit 2
 cd /verif && ./check $P --tier $T --no-evidence > /tmp/seed/eval_$1_$P.log 2>&1; RC=$?
 git -C /repo checkout -- .
+echo "EVAL $1 $P tier=$T rc=$RC $(grep -c "^VIOLATION" /tmp/seed/eval_$1_$P.log) violation lines; $(grep "^VIOLATION" /tmp/seed/eval_$1_$P.log | head -3 | tr "\n" " ")" >> $D/eval.txt
 echo "EVAL $1 $P tier=$T rc=$RC $(grep -c '^VIOLATION' /tmp/seed/eval_$1_$P.log) violation lines"; grep "^VIOLATION\|^INCONCLUSIVE" /tmp/seed/eval_$1_$P.log | head -5
